@@ -51,6 +51,15 @@ def registry : List (String × (Text → Res (Text × J))) := [
   ("Field54D", fun c => withTag "54D" (OptD.parse c) OptD.ser (OptD.json true false)), ("Field55D", fun c => withTag "55D" (OptD.parse c) OptD.ser (OptD.json true false)),
   ("Field56D", fun c => withTag "56D" (OptD.parse c) OptD.ser (OptD.json false false)), ("Field57D", fun c => withTag "57D" (OptD.parse c) OptD.ser (OptD.json false false)),
   ("Field58D", fun c => withTag "58D" (OptD.parse c) OptD.ser (OptD.json false false)),
+  ("Field50NoOption", fun c => withTag "50" (F50NoOption.parse c) joinNl (fun v => .obj [("name_and_address", J.lines v)])),
+  ("Field50C", fun c => withTag "50C" (parseBic c) id (fun v => .obj [("bic", .str v)])),
+  ("Field50L", fun c => withTag "50L" (F50L.parse c) id (fun v => .obj [("party_identifier", .str v)])),
+  ("Field50G", fun c => withTag "50G" (F50G.parse c) F50G.ser (fun v => .obj [("account", .str v.account), ("bic", .str v.bic)])),
+  ("Field50H", fun c => withTag "50H" (F50H.parse c) AcctLines.ser (AcctLines.json false)),
+  ("Field50K", fun c => withTag "50K" (F50K.parse c) AcctLines.ser (AcctLines.json false)),
+  ("Field59NoOption", fun c => withTag "59" (F59.parse c) AcctLines.ser (AcctLines.json false)),
+  ("Field59A", fun c => withTag "59A" (F59A.parse c) F59A.ser (fun v => .obj [("account", J.optStr v.account), ("bic", .str v.bic)])),
+  ("Field51A", fun c => withTag "51A" (F51A.parse c) F51A.ser (OptA.json false false)),
   ("Field77T", fun c => withTag "77T" (F77T.parse c) id (fun v => .obj [("envelope_content", .str v)]))
 ]
 
